@@ -276,7 +276,9 @@ DoQuery ==
     /\ UNCHANGED <<cfg, phase, ssl, mwi, cparams, eof, faulted, stmts, portals, skip, h>>
 
 StartCb(st, si, params) ==
-    Cb(WithCtx([name |-> "stmt.start", def |-> st.id, si |-> si, params |-> params]))
+    \* wcols: what DataWriter.Columns() answers inside the statement function - the statement's own columns
+    Cb(WithCtx([name |-> "stmt.start", def |-> st.id, si |-> si, params |-> params,
+                wcols |-> [i \in DOMAIN st.cols |-> st.cols[i].name]]))
 
 \* Start the next statement of a simple Query: RowDescription (text format)
 \* when it has columns, then the statement function is invoked.
@@ -337,7 +339,10 @@ HCopyIn ==
     /\ Running /\ Op.op = "copyin"
     /\ IF h.closed \/ Len(h.st.cols) = 0 \/ Dead
        THEN emit' = <<DwCb("dw.copyin", "err", h.written)>> /\ h' = Adv(h)
-       ELSE /\ emit' = <<Rv(MsgCopyIn(Op.fmt, Len(h.st.cols))), DwCb("dw.copyin", "nil", h.written)>>
+       ELSE /\ emit' = <<Rv(MsgCopyIn(Op.fmt, Len(h.st.cols))),
+                           \* rcols: the columns CopyReader.Columns() answers
+                           Cb([name |-> "dw.copyin", ret |-> "nil", written |-> h.written,
+                               rcols |-> [i \in DOMAIN h.st.cols |-> h.st.cols[i].name]])>>
             /\ h' = [Adv(h) EXCEPT !.copy = TRUE]
     /\ UNCHANGED <<cfg, phase, ssl, mwi, cparams, inq, eof, faulted, stmts, portals, skip, hq>>
 
